@@ -93,6 +93,8 @@ def v_gauss(case, R):
         g = Gaussian(mean=mean, covariance=cov)
         got = g.log_pdf(x)
     except Exception as e:
+        if not instr.is_library_exception(e):
+            raise
         R.fail('C07.gauss', 'gaussian-full/raised', f'Gaussian.log_pdf raised {type(e).__name__}: {e}'[:200], D=D, lead=list(lead))
         return
     ref = np.empty((*lead, N))
@@ -115,6 +117,8 @@ def v_diag(case, R):
     try:
         got = DiagonalGaussian(mean=mean, covariance=var).log_pdf(x)
     except Exception as e:
+        if not instr.is_library_exception(e):
+            raise
         R.fail('C07.diag', 'gaussian-diagonal/raised', f'DiagonalGaussian log_pdf raised {type(e).__name__}: {e}'[:200], D=D, lead=list(lead))
         return
     ref = (-0.5 * np.log(2 * np.pi * var)[..., None, :] - 0.5 * (x - mean[..., None, :]) ** 2 / var[..., None, :]).sum(-1)
@@ -132,6 +136,8 @@ def v_spher(case, R):
     try:
         got = SphericalGaussian(mean=mean, covariance=np.asarray(var)).log_pdf(x)
     except Exception as e:
+        if not instr.is_library_exception(e):
+            raise
         R.fail('C07.spher', 'gaussian-spherical/raised', f'SphericalGaussian log_pdf raised {type(e).__name__}: {e}'[:200], D=D, lead=list(lead))
         return
     ref = -0.5 * D * np.log(2 * np.pi * var)[..., None] - 0.5 * ((x - mean[..., None, :]) ** 2).sum(-1) / np.asarray(var)[..., None]
@@ -149,6 +155,8 @@ def v_ccsg(case, R):
     try:
         got = ComplexCircularSymmetricGaussian(covariance=cov).log_pdf(x)
     except Exception as e:
+        if not instr.is_library_exception(e):
+            raise
         R.fail('C07.ccsg', 'complex-gaussian/raised', f'log_pdf raised {type(e).__name__}: {e}'[:200], D=D, lead=list(lead))
         return
     ref = oracles.ccsg_log_pdf(x, cov)
@@ -173,6 +181,8 @@ def v_vmf(case, R):
     try:
         got = VonMisesFisher(mean=mean, concentration=np.asarray(kappa)).log_pdf(x)
     except Exception as e:
+        if not instr.is_library_exception(e):
+            raise
         R.fail('C07.vmf', 'vmf/raised', f'log_pdf raised {type(e).__name__}: {e}'[:200], D=D, lead=list(lead))
         return
     ref = np.empty((*lead, N))
@@ -204,6 +214,8 @@ def v_watson(case, R):
     try:
         got = ComplexWatson(mode=mode, concentration=np.asarray(kappa)).log_pdf(z)
     except Exception as e:
+        if not instr.is_library_exception(e):
+            raise
         R.fail('C07.watson', 'watson/raised', f'log_pdf raised {type(e).__name__}: {e}'[:200], D=D, lead=list(lead))
         return
     ref = oracles.watson_log_pdf(z, mode, np.asarray(kappa))
@@ -246,6 +258,8 @@ def v_bingham(case, R):
     try:
         got = np.asarray(ComplexBingham(covariance_eigenvectors=U, covariance_eigenvalues=lam.copy()).log_pdf(z))
     except Exception as e:
+        if not instr.is_library_exception(e):
+            raise
         R.fail('C07.bingham', 'bingham/raised', f'log_pdf raised {type(e).__name__}: {e}'[:200], D=D, lead=list(lead))
         return
     if got.shape != (*lead, N):
@@ -285,6 +299,8 @@ def v_cacg(case, R):
     try:
         got = ComplexAngularCentralGaussian(covariance_eigenvectors=U, covariance_eigenvalues=lam).log_pdf(y)
     except Exception as e:
+        if not instr.is_library_exception(e):
+            raise
         R.fail('C07.cacg', 'cacg/raised', f'log_pdf raised {type(e).__name__}: {e}'[:200], D=D, lead=list(lead))
         return
     B = np.einsum('...ab,...b,...cb->...ac', U, lam, U.conj())
@@ -413,6 +429,8 @@ def i_gauss1d(case, R):
         try:
             lp = model().log_pdf(x[:, None])
         except Exception as e:
+            if not instr.is_library_exception(e):
+                raise
             R.fail('C07.integral', f'integral/gaussian-{name}/raised', f'{type(e).__name__}: {e}'[:200])
             continue
         val = float((np.exp(np.asarray(lp).reshape(-1)) * w).sum()) if np.asarray(lp).size == len(x) else float('nan')
